@@ -21,6 +21,12 @@ type MitigationParams struct {
 	ConfigBump bool `json:"config_bump"`
 	CloseAt    bool `json:"close_at"` // close the stream while an event waits at the gate
 	Stall      bool `json:"stall"`    // the DCP thread is descheduled for two observe intervals at every one of its scheduling points
+	// EpochAssign: the replica is unassigned at first; a new cluster map with a HIGHER epoch but a LOWER
+	// revision id assigns it (as after an unsafe fail-over): from then on it is a listed copy
+	EpochAssign bool `json:"epoch_assign"`
+	// TransientEnd: once the feeds have gone static the stream ends with a transient cause and is re-opened;
+	// an event at or below the threshold already established then arrives
+	TransientEnd bool `json:"transient_end"`
 }
 
 // persistence feeds of one copy (uA = the branch the stream was opened on, uB = another branch)
@@ -66,6 +72,8 @@ func init() {
 				{Scenario: "c07_gate", Params: mustJSON(MitigationParams{Replicas: 1, Unassigned: true}), Bound: b, Shards: 2},
 				{Scenario: "c07_gate", Params: mustJSON(MitigationParams{Replicas: 1, ConfigBump: true}), Bound: b, Shards: 8},
 				{Scenario: "c07_gate", Params: mustJSON(MitigationParams{Replicas: 1, CloseAt: true}), Bound: b, Shards: 8},
+				{Scenario: "c07_gate", Params: mustJSON(MitigationParams{Replicas: 1, EpochAssign: true}), Bound: b - 1, Shards: 8, Note: "a cluster map with a higher epoch but a lower revision id assigns the replica: it counts from then on"},
+				{Scenario: "c07_gate", Params: mustJSON(MitigationParams{Replicas: 1, TransientEnd: true}), Bound: b - 1, Shards: 8, Note: "transient end and re-open once the feeds are static: the established threshold still applies"},
 				{Scenario: "c07_gate", Params: mustJSON(MitigationParams{Replicas: 1, Stall: true}), Bound: 0, Shards: 8, Note: "the DCP thread stalls for two observe intervals at every scheduling point (lost wake-up between the gate's check and its wait)"},
 			}
 			if tier == "thorough" {
@@ -178,20 +186,27 @@ func gateMain(p MitigationParams) {
 	o := EnvOpts{Vbs: 1, Nodes: nodes, Replicas: p.Replicas, CheckpointType: "manual", Mitigation: true, WrapMeta: true}
 	c := NewCluster(&o)
 	c.Vb[0].Failover = []gocbcore.FailoverEntry{{VbUUID: uA, SeqNo: 0}}
-	if p.Unassigned {
+	lateNode := -1
+	if p.Unassigned || p.EpochAssign {
+		lateNode = c.VbMap[0][p.Replicas]
 		c.VbMap[0][p.Replicas] = -1
 	}
 	menu := feedMenu()
 	var picks []int
 	listed := 0
 	for cp := 0; cp <= p.Replicas; cp++ {
-		if c.VbMap[0][cp] < 0 {
+		if c.VbMap[0][cp] < 0 && !p.EpochAssign {
 			picks = append(picks, -1)
 			continue
 		}
 		listed++
 		k := vrt.Choose(len(menu), true, fmt.Sprintf("feed-copy%d", cp))
 		picks = append(picks, k)
+		if p.EpochAssign {
+			// until the new map is in effect nothing beyond seqno 1 is persisted anywhere; the chosen feeds start then
+			c.SetPersist(0, cp, gocbcore.SimPersist{VbUUID: uA, Persist: 1, Current: 3})
+			continue
+		}
 		c.SetPersist(0, cp, append([]gocbcore.SimPersist{}, menu[k]...)...)
 	}
 	// Reference. A report becomes visible to the library somewhere between the start and the end of its
@@ -304,7 +319,11 @@ func gateMain(p MitigationParams) {
 		k := vrt.Choose(90, true, "stall-at-point")
 		vrt.InjectAtomic("sim:dcp:events0", k, func() { vrt.Sleep(2 * interval) })
 	}
-	c.Append(0, marker(1, 3), symbolPacket("M", 1), symbolPacket("M", 2), symbolPacket("M", 3))
+	if p.TransientEnd || p.EpochAssign {
+		c.Append(0, marker(1, 3), symbolPacket("M", 1), symbolPacket("M", 2))
+	} else {
+		c.Append(0, marker(1, 3), symbolPacket("M", 1), symbolPacket("M", 2), symbolPacket("M", 3))
+	}
 	for tick := 0; tick < 7; tick++ {
 		vrt.Sleep(interval)
 		sampleThreshold(fmt.Sprintf("tick %d", tick))
@@ -313,6 +332,32 @@ func gateMain(p MitigationParams) {
 			// restarts its observation
 			c.SetMap(c.VbMap)
 			vrt.Sleep(e.Cfg.RollbackMitigation.ConfigWatchInterval)
+		}
+		if p.EpochAssign && tick == 0 { // early: the threshold reached under the old map is still low
+			nm := make([][]int, len(c.VbMap))
+			for i := range c.VbMap {
+				nm[i] = append([]int{}, c.VbMap[i]...)
+			}
+			nm[0][p.Replicas] = lateNode
+			c.VbMap = nm
+			c.RevEpoch++
+			c.RevID = 0 // lower than before: only the epoch says that this map is newer
+			// the library polls the configuration: what it delivers until the next poll is judged by the old map
+			vrt.Sleep(e.Cfg.RollbackMitigation.ConfigWatchInterval + interval)
+			copies = append(copies, p.Replicas)
+			recompute()
+			for cp := 0; cp <= p.Replicas; cp++ {
+				c.SetPersist(0, cp, append([]gocbcore.SimPersist{}, menu[picks[cp]]...)...)
+			}
+			c.Append(0, symbolPacket("M", 3)) // this event has to wait for the newly listed copy as well
+		}
+		if p.TransientEnd && tick == 4 {
+			// the feeds are static by now: whatever threshold was reached stays what the copies report
+			c.EndStream(0, gocbcore.ErrSocketClosed)
+			vrt.Sleep(2 * time.Second)
+			// the third event of the snapshot arrives only now; if the threshold established before the end
+			// already covers it, it must be delivered although no copy reports anything new any more
+			c.Append(0, symbolPacket("M", 3))
 		}
 		if p.CloseAt && tick == 1 {
 			break
